@@ -146,7 +146,85 @@ class ProgressAccount:
         return {"name": self.name, "evidence": ev, "violations": viol}
 
 
+class HostileHeaders:
+    """fixed corpus of structurally hostile headers under an address-space limit and a watchdog (bounded/hostile.py)"""
+
+    name = "hostile-headers"
+    props = ("C05",)
+
+    def run(self, tier, seed):
+        repo = os.environ.get("VERIF_REPO", "/repo")
+        env = dict(os.environ)
+        if os.path.realpath(repo) != "/repo":
+            env["PYTHONPATH"] = repo
+        bound = "16 crafted archives of 45..120 bytes (counts of 2**36 / 2**40 members, substreams, folders, pack streams, coders, coder streams; 2**40-byte property records; members / encoded headers declaring 2**40 output bytes over 3 bytes of input; self-referential and mutually referential encoded headers): open, list, testzip, extract to memory in a child process under RLIMIT_AS = 1.5 GiB and a 30 s watchdog"
+        ev = {"name": self.name, "level": "bounded", "bound": bound}
+        try:
+            p = subprocess.run(["/venv/bin/python", os.path.join(HERE, "bounded", "hostile.py"), tier, str(seed)], capture_output=True, text=True, timeout=1200, env=env, cwd=HERE)
+            r = json.loads(p.stdout.strip().split("\n")[-1])
+        except Exception as e:
+            return {"name": self.name, "error": "hostile-header runner failed: %s" % str(e)[:200], "evidence": ev, "violations": []}
+        viol = []
+        for i, f in enumerate(r.get("failures", [])[:3]):
+            viol.append({"name": "bounded/%s/%s" % (self.name, f["case"]), "property": "C05", "obligation": "C05/bounded#" + self.name, "status": "confirmed", "concrete_input": f, "real_run": {"interpreter": "/venv/bin/python", "failure": f["failure"]}, "rerun": "/venv/bin/python bounded/hostile.py replay <this file>"})
+        ev.update({"runs": r.get("runs"), "seconds": r.get("seconds"), "failures": len(r.get("failures", []))})
+        return {"name": self.name, "evidence": ev, "violations": viol}
+
+
+class ScheduleIndependence:
+    """thread-parallel extraction with the first thread held back at a perturbed operation (bounded/schedules.py)"""
+
+    name = "schedule-perturbation"
+    props = ("C13",)
+
+    def run(self, tier, seed):
+        repo = os.environ.get("VERIF_REPO", "/repo")
+        env = dict(os.environ)
+        if os.path.realpath(repo) != "/repo":
+            env["PYTHONPATH"] = repo
+        bound = "archives of 2..4 folders opened by name (thread-parallel path), members in directories that are not members themselves; the first thread reaching Path.mkdir (before / after the call), Path.open or os.utime is held back 0.3 s; %d layouts per perturbation; tree on disk == sequential result, no error for an intact archive; 4 damaged archives must raise" % (3 if tier == "quick" else 20)
+        ev = {"name": self.name, "level": "bounded", "bound": bound}
+        try:
+            p = subprocess.run(["/venv/bin/python", os.path.join(HERE, "bounded", "schedules.py"), tier, str(seed)], capture_output=True, text=True, timeout=1200 if tier == "quick" else 3600, env=env, cwd=HERE)
+            r = json.loads(p.stdout.strip().split("\n")[-1])
+        except Exception as e:
+            return {"name": self.name, "error": "schedule runner failed: %s" % str(e)[:200], "evidence": ev, "violations": []}
+        viol = []
+        for i, f in enumerate(r.get("failures", [])[:3]):
+            viol.append({"name": "bounded/%s/%d" % (self.name, i), "property": "C13", "obligation": "C13/bounded#" + self.name, "status": "confirmed", "concrete_input": f, "real_run": {"interpreter": "/venv/bin/python", "failure": f["failure"]}, "rerun": "/venv/bin/python bounded/schedules.py replay <this file>"})
+        ev.update({"runs": r.get("runs"), "seconds": r.get("seconds"), "failures": len(r.get("failures", []))})
+        return {"name": self.name, "evidence": ev, "violations": viol}
+
+
+class MemoryGrowth:
+    """peak allocation while one large member is archived / extracted must not grow with the member (bounded/memory.py)"""
+
+    name = "memory-growth"
+    props = ("C20",)
+
+    def run(self, tier, seed):
+        repo = os.environ.get("VERIF_REPO", "/repo")
+        env = dict(os.environ)
+        if os.path.realpath(repo) != "/repo":
+            env["PYTHONPATH"] = repo
+        bound = "one member of 320 MiB and of 640 MiB%s archived from disk and extracted to disk and to a null writer under tracemalloc, chains %s, data compressing to one half and to almost nothing: peak(640) - peak(320) <= 80 MiB and every peak <= 700 MiB; Python-level allocations only (C-level encoder state is not traced)" % (" (and 1280 MiB)" if tier == "thorough" else "", "COPY, LZMA2, BZip2, ZStandard, Deflate" if tier == "thorough" else "LZMA2, ZStandard, Deflate")
+        ev = {"name": self.name, "level": "bounded", "bound": bound}
+        try:
+            p = subprocess.run(["/venv/bin/python", os.path.join(HERE, "bounded", "memory.py"), tier, str(seed)], capture_output=True, text=True, timeout=1800 if tier == "quick" else 7200, env=env, cwd=HERE)
+            r = json.loads(p.stdout.strip().split("\n")[-1])
+        except Exception as e:
+            return {"name": self.name, "error": "memory runner failed: %s" % str(e)[:200], "evidence": ev, "violations": []}
+        viol = []
+        for i, f in enumerate(r.get("failures", [])[:3]):
+            viol.append({"name": "bounded/%s/%d" % (self.name, i), "property": "C20", "obligation": "C20/bounded#" + self.name, "status": "confirmed", "concrete_input": f, "real_run": {"interpreter": "/venv/bin/python", "failure": f["failure"]}, "rerun": "/venv/bin/python bounded/memory.py replay <this file>"})
+        ev.update({"runs": r.get("runs"), "seconds": r.get("seconds"), "failures": len(r.get("failures", [])), "peaks_mib": r.get("table")})
+        return {"name": self.name, "evidence": ev, "violations": viol}
+
+
 REGISTRY.scenarios.append(AppendHistories())
+REGISTRY.scenarios.append(MemoryGrowth())
+REGISTRY.scenarios.append(ScheduleIndependence())
+REGISTRY.scenarios.append(HostileHeaders())
 REGISTRY.scenarios.append(ProgressAccount())
 REGISTRY.scenarios.append(ReferenceArchives("C06"))
 REGISTRY.scenarios.append(ReferenceArchives("C10"))
